@@ -6,8 +6,9 @@ EXTENDS IndependenceBase
 
 At(an, ty, rn, res) == [an |-> an, ty |-> ty, rn |-> rn, res |-> res]
 In(kind, at, par, ver) == [kind |-> kind, at |-> at, par |-> par, ver |-> ver]
-LA(oi, an, rn) == [oi |-> oi, an |-> an, rn |-> rn, mk |-> ""]
-LAM(oi, an, rn, mk) == [oi |-> oi, an |-> an, rn |-> rn, mk |-> mk]
+LA(oi, an, rn) == [oi |-> oi, an |-> an, rn |-> rn, mk |-> "", ty |-> ""]
+LAM(oi, an, rn, mk) == [oi |-> oi, an |-> an, rn |-> rn, mk |-> mk, ty |-> ""]
+LAT(oi, an, rn, ty) == [oi |-> oi, an |-> an, rn |-> rn, mk |-> "", ty |-> ty]
 D(t, i) == [t |-> t, i |-> i]
 Blk(name, nrexcl, atoms, inters, cite) == [name |-> name, nrexcl |-> nrexcl, atoms |-> atoms, inters |-> inters, cite |-> cite]
 Lnk(orders, atoms, inters) == [orders |-> orders, atoms |-> atoms, inters |-> inters, rep |-> <<>>, del |-> {}]
@@ -57,6 +58,11 @@ BlockP == Blk("P", 1, <<At("A", "C1", "P", 1), At("B", "C2", "P", 1)>>, <<In("bo
 KPB == LBond({"P"}, "B", {"P"}, "A", "0.62", 1)
 KPM == Lnk(<<0, 1>>, <<LAM(1, "A", {"P"}, "x"), LA(1, "B", {"P"}), LA(2, "A", {"P"})>>, <<In("angles", <<1, 2, 3>>, "0.63", 1)>>)
 
+\* a link that replaces the type of an atom and a link (a different interaction) that selects the same atom by its ORIGINAL type
+BlockQ == Blk("Q", 1, <<At("C1", "P1", "Q", 1), At("C2", "P2", "Q", 1)>>, <<In("bonds", <<1, 2>>, "0.71", 1)>>, {})
+KQB == [LBond({"Q"}, "C2", {"Q"}, "C1", "0.72", 1) EXCEPT !.rep = <<[a |-> 2, ty |-> "P1b"]>>]
+KQA == Lnk(<<0, 1>>, <<LA(1, "C1", {"Q"}), LA(1, "C2", {"Q"}), LAT(2, "C1", {"Q"}, "P1")>>, <<In("angles", <<1, 2, 3>>, "0.73", 1)>>)
+
 (* ---- modifications *)
 ModN == [name |-> "N-ter", atoms |-> <<[an |-> "BB", rep |-> TRUE, ty |-> "Qd"], [an |-> "SC1", rep |-> FALSE, ty |-> ""]>>,
          inters |-> <<[kind |-> "bonds", a |-> "BB", b |-> "SC1", par |-> "0.91"]>>]
@@ -89,7 +95,10 @@ FFcat == <<
   MkFF(<<BlockS("P1"), BlockS("P2")>>, <<KXB, KXA, KYB>>, <<>>, {},
        <<File("ff", <<D("b", 1), D("l", 1), D("l", 2)>>), File("ff", <<D("b", 2), D("l", 3)>>)>>),
   \* 9: link atom selected by a residue-level attribute that only some of the same-named residues carry
-  MkFF(<<BlockP>>, <<KPB, KPM>>, <<>>, {}, <<File("ff", <<D("b", 1), D("l", 1), D("l", 2)>>)>>)
+  MkFF(<<BlockP>>, <<KPB, KPM>>, <<>>, {}, <<File("ff", <<D("b", 1), D("l", 1), D("l", 2)>>)>>),
+  \* 10, 11: replace-link and type-selecting link on the same atom, in one file / in two files (both definition orders are presentations)
+  MkFF(<<BlockQ>>, <<KQB, KQA>>, <<>>, {}, <<File("ff", <<D("b", 1), D("l", 1), D("l", 2)>>)>>),
+  MkFF(<<BlockQ>>, <<KQB, KQA>>, <<>>, {}, <<File("ff", <<D("b", 1), D("l", 1)>>), File("ff", <<D("l", 2)>>)>>)
 >>
 
 (* ---- residue graphs *)
@@ -137,12 +146,15 @@ CaseSeq == <<
   Case(33, 8, 1, <<"S", "S", "S">>, NoFi(3), Chain(3), <<>>),
   CaseM(34, 9, 1, <<"P", "P", "P", "P">>, Chain(4), <<"", "", "x", "">>),
   CaseM(35, 9, 1, <<"P", "P", "P", "P">>, Star4, <<"x", "", "", "y">>),
-  CaseM(36, 9, 3, <<"P", "P", "P">>, Tri, <<"", "x", "x">>)
+  CaseM(36, 9, 3, <<"P", "P", "P">>, Tri, <<"", "x", "x">>),
+  Case(37, 10, 1, <<"Q", "Q", "Q", "Q">>, NoFi(4), Chain(4), <<>>),
+  Case(38, 11, 2, <<"Q", "Q", "Q">>, NoFi(3), Chain(3), <<>>),
+  Case(39, 11, 1, <<"Q", "Q", "Q", "Q">>, NoFi(4), Star4, <<>>)
 >>
 AllCases == ToSet(CaseSeq)
 CasesById(S) == {c \in AllCases : c.id \in S}
 \* the quick instance of the confluence check (thorough: AllCases)
-CasesQuick == CasesById({1, 2, 5, 8, 9, 11, 12, 13, 14, 16, 17, 20, 22, 23, 24, 26, 27, 30, 31, 33, 34, 36})
+CasesQuick == CasesById({1, 2, 5, 8, 9, 11, 12, 13, 14, 16, 17, 20, 22, 23, 24, 26, 27, 30, 31, 33, 34, 36, 38})
 \* small sub-instances for the sensitivity runs
 CasesSlice == CasesById({13})
 CasesFrag == CasesById({16})
@@ -154,9 +166,10 @@ CasesFiles == CasesById({24})
 CasesAdd == CasesById({8, 14})
 CasesStar == CasesById({31})
 CasesMark == CasesById({34})
+CasesRepl == CasesById({38})
 
 NoDev == [sliceAny |-> FALSE, key0 |-> FALSE, addAny |-> FALSE, firstMatchOnly |-> FALSE, orientLink |-> FALSE,
-          dfsTreeFrag |-> FALSE, fragIdOrder |-> FALSE, itpGlobal |-> FALSE, cacheFF |-> FALSE, writerAppend |-> FALSE, flushLate |-> FALSE, canonMatch |-> FALSE, baseOnly |-> FALSE, oncePerGroup |-> FALSE, inpathLeak |-> FALSE, nameCache |-> FALSE, readerCache |-> FALSE]
+          dfsTreeFrag |-> FALSE, fragIdOrder |-> FALSE, itpGlobal |-> FALSE, cacheFF |-> FALSE, writerAppend |-> FALSE, flushLate |-> FALSE, canonMatch |-> FALSE, baseOnly |-> FALSE, oncePerGroup |-> FALSE, inpathLeak |-> FALSE, nameCache |-> FALSE, readerCache |-> FALSE, replaceVisible |-> FALSE]
 DevSliceAny == [NoDev EXCEPT !.sliceAny = TRUE, !.baseOnly = TRUE]
 DevKey0 == [NoDev EXCEPT !.key0 = TRUE, !.baseOnly = TRUE]
 DevAddAny == [NoDev EXCEPT !.addAny = TRUE, !.baseOnly = TRUE]
@@ -169,6 +182,7 @@ DevOncePerGroup == [NoDev EXCEPT !.oncePerGroup = TRUE, !.baseOnly = TRUE]
 DevInpathLeak == [NoDev EXCEPT !.inpathLeak = TRUE]
 DevNameCache == [NoDev EXCEPT !.nameCache = TRUE, !.baseOnly = TRUE]
 DevReaderCache == [NoDev EXCEPT !.readerCache = TRUE]
+DevReplaceVisible == [NoDev EXCEPT !.replaceVisible = TRUE]
 DevCacheFF == [NoDev EXCEPT !.cacheFF = TRUE]
 DevWriterAppend == [NoDev EXCEPT !.writerAppend = TRUE]
 DevFlushLate == [NoDev EXCEPT !.flushLate = TRUE]
